@@ -109,6 +109,10 @@ def run(prog: Program, rep: Report, tier: str) -> None:
         zl = fr.env.get("Z")
         same = (z is z0 or (isinstance(z, Iv) and repr(z) == repr(z0))) and (zl is None or repr(zl) == repr(z0))
         rep.check("R15.3", fi.qual, f"both vertical switches off (advection {'on' if adv else 'off'}): depth untouched", same and not log["depth_args"], what_bad=f"Z becomes {z} / local {zl}; depth sampled {log['depth_args']}: the tracker changes the depth although vertical motion is switched off", what_ok="no store to Z", loc=fi.loc())
+    from ..share import share
+
+    share(prog, rep, "C17", ("R17.1",), "R15.4", "the depth array is read at the particle's own cell, inside the array", 1, only=lambda o: "Grid.depth" in o.func)
+
 
 
 from ..selftest import Mut  # noqa: E402
